@@ -150,11 +150,11 @@ func (e *Encoder) writeObject(data interface{}) (int, error) {
 	if !ok {
 		length, _ = e.writeClsDef(typ, clsName)
 	}
-	if byte(length) <= _objectTagMaxLen {
-		// NOTE: when length=2, length+_objectLenTagMin='b', the same as the binary chunk start with,
-		// which will be special processed in decoder
+	if length <= int(_objectTagMaxLen) && byte(length)+_objectLenTagMin != _binaryChunk {
 		e.writeBT(byte(length) + _objectLenTagMin)
 	} else {
+		// NOTE: the short form of class #2 would be 'b', which the decoder reads as the start of
+		// a binary chunk wherever a binary is possible too, so class #2 uses the long form
 		e.writeBT(_objectTag)
 		e.writeInt(int32(length))
 	}
